@@ -12,6 +12,7 @@ from concurrent.futures import ThreadPoolExecutor
 
 from .. import gen, nm, work
 from ..common import Ctx, mktmp
+from . import c03
 
 LEVEL = "exploration"
 
@@ -200,6 +201,8 @@ def run(ctx: Ctx):
         my_rows = rows if label == "gen" else rng.sample(rows, min(len(rows), 3 if quick else 10))
         for row in my_rows:
             a = args + row_args(rng, row)
+            if "-funsafe-string-indexing" in a and ast is not None and c03.has_idx(ast):
+                a.remove("-funsafe-string-indexing")     # unsafe indexing is a promise that indices are in range; generated ones are not
             r = nm.compile_source(src, a, name="prs")
             ctx.count("compilations")
             if not r.ok:
